@@ -1176,6 +1176,36 @@ fn embedded_records(emit: &mut dyn FnMut(String)) {
 	}
 }
 
+/// a logical type the crate does not know (kept as an annotation) on every kind of node that can
+/// carry one - the renderer has one arm per kind, each of which must write it
+fn logical_on_every_kind(emit: &mut dyn FnMut(String)) {
+	let kinds = [
+		Reg::Array(2),
+		Reg::Map(2),
+		Reg::Record("Inner".into(), vec![("x".into(), 2)]),
+		Reg::Enum("E".into(), vec!["A".into(), "B".into()]),
+		Reg::Fixed("F".into(), 5),
+		Reg::Bytes,
+		Reg::String,
+		Reg::Long,
+		Reg::Boolean,
+		Reg::Null,
+		Reg::Float,
+	];
+	for k in kinds {
+		for name in ["custom-kind", "map"] {
+			let g = vec![
+				RawNode { reg: Reg::Record("R".into(), vec![("f".into(), 1), ("g".into(), 1)]), logical: None },
+				RawNode { reg: k.clone(), logical: Some(Logical::Unknown(name.into())) },
+				RawNode { reg: Reg::Int, logical: None },
+			];
+			let mut w = W::default();
+			w.t("graph").n(1).schema(&g);
+			emit(w.s);
+		}
+	}
+}
+
 /// an UNKNOWN logical type that carries the name of a known one (the builder API accepts any
 /// name), on underlying types the known one fits and does not fit: what is rendered must parse
 /// back to a schema with the same meaning
@@ -1203,6 +1233,7 @@ pub fn generate_graph(stream: &str, seed: u64, n: usize, emit: &mut dyn FnMut(St
 	if stream == "graph" {
 		embedded_records(emit);
 		unknown_named_like_known(emit);
+		logical_on_every_kind(emit);
 	}
 	for i in 0..n {
 		let wild = stream == "graph-wild" || rng.gen_bool(0.2);
